@@ -3,6 +3,7 @@
 consumer-side reader: declared counts, actual counts, first / last / a few interior values.  Off-by-one behaviour that
 exists only for particular sizes (blocked loops, 'n-1' comparisons, width-dependent formats) lives here."""
 import io
+import routes
 
 import readers
 
@@ -15,13 +16,13 @@ def check_tabeam(ctx, n, fs=False):
   import atsim.potentials as ap
   from atsim.potentials import Potential, EAMPotential
   step = 0.5
-  out = io.StringIO()
+  out = routes.text_sink()
   for which in ("r", "rho"):
     nr, nrho = (n, 3) if which == "r" else (3, n)
     dens = {"A": ident} if fs else ident
     eam = [EAMPotential("A", 13, 26.98, ident, dens)]
     pots = [Potential("A", "A", ident)]
-    out = io.StringIO()
+    out = routes.text_sink()
     (ap.writeTABEAMFinnisSinclair if fs else ap.writeTABEAM)(nrho, step, nr, step, eam, pots, out, "sizes")
     try:
       p = readers.read_tabeam(out.getvalue())
@@ -53,7 +54,7 @@ def check_lammps(ctx, n):
   cutoff = (n - 1) * dr
   pots = [Potential("A", "B", ident), Potential("B", "B", lambda r: 2.0 * r)]
   for route in ("class", "legacy"):
-    out = io.StringIO()
+    out = routes.text_sink()
     try:
       if route == "class":
         LAMMPS_PairTabulation(pots, cutoff, n).write(out)
@@ -100,7 +101,7 @@ def check_dlpoly(ctx, n):
     return True
   pots = [Potential("A", "B", ident), Potential("B", "B", lambda r: 2.0 * r)]
   for route in ("class", "legacy"):
-    out = io.StringIO()
+    out = routes.text_sink()
     if route == "class":
       DLPoly_PairTabulation(pots, cutoff, n).write(out)
     else:
@@ -135,7 +136,7 @@ def check_setfl(ctx, n, fs=False):
     dens = {"Al": ident} if fs else ident
     eam = [EAMPotential("Al", 13, 26.98, ident, dens, 4.05, "fcc")]
     pots = [Potential("Al", "Al", ident)]
-    out = io.StringIO()
+    out = routes.text_sink()
     (ap.writeSetFLFinnisSinclair if fs else ap.writeSetFL)(nrho, step, nr, step, eam, pots, out)
     try:
       p = readers.read_setfl(out.getvalue(), fs=fs)
@@ -166,7 +167,7 @@ def check_gulp(ctx, n):
   from atsim.potentials.pair_tabulation import GULP_PairTabulation
   dr = 0.25
   cutoff = (n - 1) * dr
-  out = io.StringIO()
+  out = routes.text_sink()
   GULP_PairTabulation([Potential("A", "B", ident), Potential("B", "B", lambda r: 2.0 * r)], cutoff, n).write(out)
   try:
     blocks = readers.read_gulp(out.getvalue())
